@@ -7,6 +7,8 @@
 #include <asl/SHA1.h>
 #include <asl/Map.h>
 #include <unistd.h>
+#include <errno.h>
+#include <sys/mman.h>
 #include <sys/wait.h>
 #include "vf.h"
 #include "aslx.h"
@@ -155,19 +157,19 @@ static Bytes content(size_t len, int kind) {
 }
 
 // ------------------------------------------------------------------------------------------------
-// plumbing
+// plumbing: counters, flood control, sanitizer oracle, isolation of memory-corrupting failures
 // ------------------------------------------------------------------------------------------------
-static int C_EVAL, C_DISTINCT;
+static int C_EVAL, C_DISTINCT, C_RESTARTS, C_SKIPPED;
 static int W_TAIL[3], W_WS, W_WS_PAD, W_LT4, W_LEFTOVER, W_PADONLY, W_PADMID, W_JUNK, W_BADRES_EMPTY, W_BADRES_NONEMPTY, W_NLT;
 static int W_HEX_ODD, W_HEX_EVEN, W_HEX_ODD7, W_HEX_NONHEX, W_HEX_VALID;
 static int W_URL_ESC, W_URL_PLAIN, W_URL_MODE, W_URL_MALFORMED, W_Q_EMPTYV, W_Q_TWO, W_Q_SPECIAL;
 static int W_SHA_1BLK, W_SHA_2BLK, W_SHA_EDGE, W_SHA_DIRECT, W_SHA_LARGE;
 static int N_URL_STD, N_B64_LARGE;
 
-// One defect fails on millions of enumerated inputs: the first few failures of each class (counted across all workers in
-// shared memory) are written out as violations, further ones of the same class are only counted.
+// One defect fails on millions of enumerated inputs: the first few failures of each class (counted across all processes in
+// shared memory) are written out as violations, further ones of the same class are only counted ("failures.<sig>").
 static const char* SIGS[] = { "b64_encode", "b64_decode", "b64_ws", "b64_neg_length", "b64_oob", "b64_explicit_len", "hex_encode", "hex_decode", "hex_neg_length", "hex_oob",
-                              "url_roundtrip", "url_oob", "query_roundtrip", "sha1", "sha_oob" };
+                              "url_roundtrip", "url_oob", "query_roundtrip", "sha1", "sha_oob", "crash" };
 enum { NSIGS = sizeof SIGS / sizeof *SIGS, PER_SIG = 4 };
 static int C_SIG[NSIGS];
 static void bad(const char* sig, const std::string& desc, const std::string& kase) {
@@ -179,6 +181,103 @@ static void bad(const char* sig, const std::string& desc, const std::string& kas
 	}
 	vf::violation(sig, desc, kase);
 }
+
+// Calling forms of the code under test. A form whose failures corrupt memory (sanitizer WRITE / free errors) is exercised in a
+// sacrificial sub-process that is discarded after the first such failure (DESIGN 3.3); after FORM_LIMIT of them the form is no
+// longer exercised in this run (reported as a cap: the run is then not exhaustive), so that one defect cannot cost hours or
+// hide the other forms.
+enum Form { F_ENCODE, F_B64_STRING, F_B64_CHARP, F_B64_N_NUL, F_B64_N_TIGHT, F_HEX_EVEN, F_HEX_ODD, F_URL, F_QUERY, F_SHA, NFORMS };
+static const char* FORM_NAME[NFORMS] = { "encodeBase64/encodeHex", "decodeBase64(String)", "decodeBase64(char*)", "decodeBase64(char*, n < strlen)", "decodeBase64(unterminated buffer, n)",
+                                         "decodeHex(even length)", "decodeHex(odd length)", "Url::encode/decode", "Url::params/parseQuery", "SHA1::hash" };
+enum { FORM_LIMIT = 40 };
+struct Iso { volatile uint64_t idx; char kase[600]; char sig[64]; };
+struct IsoShared { Iso iso[80]; volatile uint32_t form_poison[NFORMS]; };
+static IsoShared* SH;
+static bool g_poisoned = false;
+static int g_form = 0;
+
+#if defined(__SANITIZE_ADDRESS__)
+extern "C" void __asan_set_error_report_callback(void (*)(const char*));
+#endif
+static volatile int a_flag = 0, a_corrupting = 0;
+static char a_msg[160];
+static void asan_cb(const char* report) { // replaces vf's callback: additionally tells reads (harmless for later cases) from writes / bad frees
+	a_flag = 1;
+	if (!strstr(report, "READ of size")) a_corrupting = 1;
+	if (a_msg[0]) return;
+	const char* p = strstr(report, "AddressSanitizer: ");
+	p = p ? p + 18 : report;
+	size_t i = 0;
+	while (p[i] && p[i] != '\n' && i < sizeof(a_msg) - 1) { a_msg[i] = p[i]; i++; }
+	a_msg[i] = 0;
+	char* q = strstr(a_msg, " on address"); if (q) *q = 0;
+	q = strstr(a_msg, ": 0x"); if (q) *q = 0;
+	q = strstr(a_msg, " (pc "); if (q) *q = 0;
+	if (strstr(report, "WRITE of size")) strncat(a_msg, " (WRITE)", sizeof(a_msg) - strlen(a_msg) - 1);
+	else if (strstr(report, "READ of size")) strncat(a_msg, " (READ)", sizeof(a_msg) - strlen(a_msg) - 1);
+}
+static void asan_clear() { a_flag = 0; a_corrupting = 0; a_msg[0] = 0; }
+
+static void setcur(const std::string& kase, const char* crash_sig) { // publish the case before touching asl code
+	vf::cur(kase); vf::cur_sig(crash_sig);
+	if (vf::in_worker()) {
+		Iso& me = SH->iso[vf::worker_id()];
+		size_t n = kase.size() < sizeof(me.kase) - 1 ? kase.size() : sizeof(me.kase) - 1;
+		memcpy(me.kase, kase.data(), n); me.kase[n] = 0;
+		strncpy(me.sig, crash_sig, sizeof(me.sig) - 1);
+	}
+	asan_clear();
+}
+static void setsig(const char* crash_sig) { vf::cur_sig(crash_sig); if (vf::in_worker()) strncpy(SH->iso[vf::worker_id()].sig, crash_sig, sizeof(SH->iso[0].sig) - 1); }
+// may this form be exercised now?
+static bool form_on(Form f) {
+	if (vf::opt.replay) return true;
+	if (g_poisoned) return false; // this process already saw a memory-corrupting failure: it only winds down
+	if (SH->form_poison[f] >= FORM_LIMIT) { vf::add(C_SKIPPED); return false; }
+	g_form = f;
+	return true;
+}
+// descriptions are only built when something failed (W(...) wraps the expression in a lambda)
+#define W(expr) [&]() -> std::string { return expr; }
+template <class D>
+static bool asan(const char* sig, D what, const std::string& kase) {
+	if (!a_flag) return false;
+	bad(sig, "AddressSanitizer: " + std::string(a_msg[0] ? a_msg : "error") + " in " + what(), kase);
+	if (a_corrupting && !g_poisoned) { g_poisoned = true; __sync_fetch_and_add(&SH->form_poison[g_form], 1); }
+	asan_clear();
+	return true;
+}
+
+// run fn(i) for every i in [0,total): sharded over the worker pool in blocks; each block runs in a sub-process of its worker,
+// which is replaced (continuing at the next index) when it was poisoned by a memory-corrupting failure or died
+template <class F>
+static void run_cases(uint64_t total, F fn) {
+	if (!total) return;
+	uint64_t blk = (total + 191) / 192;
+	uint64_t nblk = (total + blk - 1) / blk;
+	vf::parallel(nblk, [&](uint64_t b) {
+		uint64_t lo = b * blk, hi = lo + blk < total ? lo + blk : total;
+		Iso& me = SH->iso[vf::worker_id()];
+		while (lo < hi) {
+			fflush(stdout); fflush(stderr);
+			me.kase[0] = 0; strcpy(me.sig, "crash");
+			pid_t pid = fork();
+			if (pid < 0) { perror("c15: fork"); _exit(2); }
+			if (pid == 0) {
+				for (uint64_t i = lo; i < hi; i++) { me.idx = i; fn(i); if (g_poisoned) _exit(77); }
+				_exit(0);
+			}
+			int st = 0;
+			while (waitpid(pid, &st, 0) < 0 && errno == EINTR) {}
+			if (WIFEXITED(st) && WEXITSTATUS(st) == 0) break;
+			if (!(WIFEXITED(st) && WEXITSTATUS(st) == 77)) // died: attribute to the published case, go on with the next one
+				bad(me.sig, WIFSIGNALED(st) ? fmt("process died: killed by signal %d", WTERMSIG(st)) : fmt("process died: exit status %d", WEXITSTATUS(st)), me.kase);
+			vf::add(C_RESTARTS);
+			lo = me.idx + 1;
+		}
+	});
+}
+
 static std::string show(const std::string& s) { // printable rendering
 	std::string o = "\"";
 	for (size_t i = 0; i < s.size() && i < 48; i++) {
@@ -202,15 +301,6 @@ struct Tight {
 	explicit Tight(const Bytes& b) { p = (byte*)malloc(b.size()); if (b.size()) memcpy(p, b.data(), b.size()); }
 	~Tight() { free(p); }
 };
-// descriptions are only built when something failed (W(...) wraps the expression in a lambda)
-#define W(expr) [&]() -> std::string { return expr; }
-template <class D>
-static bool asan(const char* sig, D what, const std::string& kase) {
-	if (!vf::asan_tripped()) return false;
-	bad(sig, "AddressSanitizer: " + vf::asan_what() + " in " + what(), kase);
-	vf::asan_clear();
-	return true;
-}
 
 // ------------------------------------------------------------------------------------------------
 // (A) byte arrays: encode == standard text, decode(text) == bytes, every calling form
@@ -218,18 +308,17 @@ static bool asan(const char* sig, D what, const std::string& kase) {
 template <class D>
 static void decoded_is(const ByteArray& r, const Bytes& d, const char* sig, D what, const std::string& kase) {
 	vf::add(C_EVAL);
-	if (r.length() < 0) { bad("b64_neg_length", what() + " returned an array of length " + fmt("%d", r.length()), kase); vf::asan_clear(); return; }
+	if (r.length() < 0) { bad("b64_neg_length", what() + " returned an array of length " + fmt("%d", r.length()), kase); asan_clear(); return; }
 	if (asan(strcmp(sig, "b64_explicit_len") == 0 ? sig : "b64_oob", what, kase)) return;
 	if (!same(r, d)) bad(sig, what() + " = " + showarr(r) + ", expected [" + fmt("%d", (int)d.size()) + " bytes] " + vf::hex(d.substr(0, 24)), kase);
 }
 static void check_array(const Bytes& d, const std::string& kase, bool full) {
-	vf::cur(kase); vf::cur_sig("codec_crash");
-	vf::asan_clear();
+	setcur(kase, "crash");
 	vf::add(C_DISTINCT);
 	vf::add(W_TAIL[d.size() % 3]);
 	int n = (int)d.size();
 	const std::string text = ref_b64enc(d), htext = ref_hexenc(d);
-	{
+	if (form_on(F_ENCODE)) {
 		Tight t(d);
 		String e = encodeBase64(t.p, n);
 		vf::add(C_EVAL);
@@ -254,12 +343,12 @@ static void check_array(const Bytes& d, const std::string& kase, bool full) {
 			}
 		}
 	}
-	{ // decoding is exercised on the standard text, so it does not depend on asl's encoder
+	if (form_on(F_B64_STRING)) { // decoding is exercised on the standard text, so it does not depend on asl's encoder
 		String t = vfx::A(text);
 		vfx::Flush fl(t);
 		decoded_is(decodeBase64(t), d, "b64_decode", W("decodeBase64(String " + show(text) + ")"), kase);
 	}
-	{
+	if (form_on(F_HEX_EVEN)) {
 		String t = vfx::A(htext);
 		vfx::Flush fl(t);
 		ByteArray r = decodeHex(t);
@@ -268,20 +357,11 @@ static void check_array(const Bytes& d, const std::string& kase, bool full) {
 		else if (!asan("hex_oob", W("decodeHex(" + show(htext) + ")"), kase) && !same(r, d)) bad("hex_decode", "decodeHex(" + show(htext) + ") = " + showarr(r) + ", expected " + vf::hex(d.substr(0, 24)), kase);
 	}
 	if (!full) return;
-	{ vfx::FlushBuf fb(text); decoded_is(decodeBase64(fb.p), d, "b64_decode", W("decodeBase64(char* " + show(text) + ")"), kase); }
-	{ vfx::FlushBuf fb(text); decoded_is(decodeBase64(fb.p, (int)text.size()), d, "b64_decode", W("decodeBase64(char* " + show(text) + fmt(", %d)", (int)text.size())), kase); }
-	vf::cur_sig("b64_explicit_len"); // a crash from here on is the explicit-length form running past n
-	{ // explicit length shorter than the NUL-terminated buffer: only the first n characters are the text
-		vfx::FlushBuf fb(text + "QUJDRA==");
-		vf::add(W_NLT);
-		decoded_is(decodeBase64(fb.p, (int)text.size()), d, "b64_explicit_len", W("decodeBase64(char* " + show(text + "QUJDRA==") + fmt(", n=%d)", (int)text.size())), kase);
+	if (form_on(F_B64_CHARP)) {
+		{ vfx::FlushBuf fb(text); decoded_is(decodeBase64(fb.p), d, "b64_decode", W("decodeBase64(char* " + show(text) + ")"), kase); }
+		{ vfx::FlushBuf fb(text); decoded_is(decodeBase64(fb.p, (int)text.size()), d, "b64_decode", W("decodeBase64(char* " + show(text) + fmt(", %d)", (int)text.size())), kase); }
 	}
-	{ // explicit length on a buffer that holds exactly n characters (no terminator)
-		Tight tt(text);
-		decoded_is(decodeBase64((const char*)tt.p, (int)text.size()), d, "b64_explicit_len", W("decodeBase64(unterminated buffer " + show(text) + fmt(", n=%d)", (int)text.size())), kase);
-	}
-	vf::cur_sig("codec_crash");
-	if (n > 6) { // longer texts: the usual line-wrapped layouts (short texts get every insertion in pass W)
+	if (n > 6 && form_on(F_B64_STRING)) { // longer texts: the usual line-wrapped layouts (short texts get every insertion in pass W)
 		const char* seps[] = { "\r\n", "\n", " " };
 		int every[] = { 76, 64, 1 };
 		for (int l = 0; l < 3; l++) {
@@ -294,14 +374,23 @@ static void check_array(const Bytes& d, const std::string& kase, bool full) {
 			decoded_is(decodeBase64(t), d, "b64_ws", W(fmt("decodeBase64(text of %d bytes with %s every %d characters) ", n, l == 0 ? "CRLF" : l == 1 ? "LF" : "a space", every[l]) + show(w)), kase);
 		}
 	}
+	setsig("b64_explicit_len"); // a crash from here on is the explicit-length form running past n
+	if (form_on(F_B64_N_NUL)) { // explicit length shorter than the NUL-terminated buffer: only the first n characters are the text
+		vfx::FlushBuf fb(text + "QUJDRA==");
+		vf::add(W_NLT);
+		decoded_is(decodeBase64(fb.p, (int)text.size()), d, "b64_explicit_len", W("decodeBase64(char* " + show(text + "QUJDRA==") + fmt(", n=%d)", (int)text.size())), kase);
+	}
+	if (form_on(F_B64_N_TIGHT)) { // explicit length on a buffer that holds exactly n characters (no terminator)
+		Tight tt(text);
+		decoded_is(decodeBase64((const char*)tt.p, (int)text.size()), d, "b64_explicit_len", W("decodeBase64(unterminated buffer " + show(text) + fmt(", n=%d)", (int)text.size())), kase);
+	}
 }
 
 // ------------------------------------------------------------------------------------------------
 // (W) whitespace-interleaved valid Base64 text
 // ------------------------------------------------------------------------------------------------
 static void check_ws_text(const std::string& w, const std::string& kase) {
-	vf::cur(kase); vf::cur_sig("b64_crash");
-	vf::asan_clear();
+	setcur(kase, "crash");
 	Bytes d;
 	std::string st = strip_ws(w);
 	if (!ref_b64dec(st, d)) return; // replay of a hand-written case that is not valid Base64: nothing is demanded here
@@ -309,18 +398,17 @@ static void check_ws_text(const std::string& w, const std::string& kase) {
 	if (st.size() != w.size()) vf::add(W_WS);
 	size_t eq = w.find('=');
 	if (eq != std::string::npos && (w.find_first_of(" \t\r\n", eq) != std::string::npos || (eq && is_ws(w[eq - 1])))) vf::add(W_WS_PAD);
-	{ String t = vfx::A(w); vfx::Flush fl(t); decoded_is(decodeBase64(t), d, "b64_ws", W("decodeBase64(String " + show(w) + ")"), kase); }
-	{ vfx::FlushBuf fb(w); decoded_is(decodeBase64(fb.p), d, "b64_ws", W("decodeBase64(char* " + show(w) + ")"), kase); }
+	if (form_on(F_B64_STRING)) { String t = vfx::A(w); vfx::Flush fl(t); decoded_is(decodeBase64(t), d, "b64_ws", W("decodeBase64(String " + show(w) + ")"), kase); }
+	if (form_on(F_B64_CHARP)) { vfx::FlushBuf fb(w); decoded_is(decodeBase64(fb.p), d, "b64_ws", W("decodeBase64(char* " + show(w) + ")"), kase); }
 }
 static const char WS[] = " \n\r\t";
 // all ways of inserting up to k whitespace characters into text (insertion points non-decreasing)
-static void ws_insertions(const std::string& text, int k, size_t from, const std::string& cur, size_t consumed) {
-	// cur = output built so far, consumed = characters of text already copied
-	check_ws_text(cur + text.substr(consumed), "b64ws:" + vf::hex(cur + text.substr(consumed)));
+static void ws_insertions(std::vector<std::string>& out, const std::string& text, int k, size_t from, const std::string& cur, size_t consumed) {
+	out.push_back(cur + text.substr(consumed));
 	if (k == 0) return;
 	for (size_t pos = from; pos <= text.size(); pos++)
 		for (int c = 0; c < 4; c++)
-			ws_insertions(text, k - 1, pos, cur + text.substr(consumed, pos - consumed) + WS[c], pos);
+			ws_insertions(out, text, k - 1, pos, cur + text.substr(consumed, pos - consumed) + WS[c], pos);
 }
 
 // ------------------------------------------------------------------------------------------------
@@ -329,14 +417,13 @@ static void ws_insertions(const std::string& text, int k, size_t from, const std
 template <class D>
 static void malformed_result(const ByteArray& r, const char* oobsig, D what, const std::string& kase) {
 	vf::add(C_EVAL);
-	if (r.length() < 0) { bad("b64_neg_length", what() + " returned an array of length " + fmt("%d", r.length()), kase); vf::asan_clear(); return; }
+	if (r.length() < 0) { bad("b64_neg_length", what() + " returned an array of length " + fmt("%d", r.length()), kase); asan_clear(); return; }
 	if (asan(oobsig, what, kase)) return;
 	vf::add(r.length() ? W_BADRES_NONEMPTY : W_BADRES_EMPTY);
 }
 static void check_b64_text(const std::string& s) {
 	std::string kase = "b64bad:" + vf::hex(s);
-	vf::cur(kase); vf::cur_sig("b64_crash");
-	vf::asan_clear();
+	setcur(kase, "crash");
 	vf::add(C_DISTINCT);
 	int L = (int)s.size(), sym = 0, pads = 0, junk = 0; bool padmid = false;
 	for (int i = 0; i < L; i++) {
@@ -350,16 +437,19 @@ static void check_b64_text(const std::string& s) {
 	if (pads && pads == sym) vf::add(W_PADONLY);
 	if (padmid) vf::add(W_PADMID);
 	if (junk) vf::add(W_JUNK);
-	{ String t = vfx::A(s); vfx::Flush fl(t); malformed_result(decodeBase64(t), "b64_oob", W("decodeBase64(String " + show(s) + ")"), kase); }
+	if (form_on(F_B64_STRING)) { String t = vfx::A(s); vfx::Flush fl(t); malformed_result(decodeBase64(t), "b64_oob", W("decodeBase64(String " + show(s) + ")"), kase); }
 	vfx::FlushBuf fb(s);
-	malformed_result(decodeBase64(fb.p), "b64_oob", W("decodeBase64(char* " + show(s) + ")"), kase);
-	vf::cur_sig("b64_explicit_len");
+	if (form_on(F_B64_CHARP)) malformed_result(decodeBase64(fb.p), "b64_oob", W("decodeBase64(char* " + show(s) + ")"), kase);
+	setsig("b64_explicit_len");
 	for (int n = 0; n < L; n++) { // the text is the first n characters of a longer NUL-terminated buffer
+		if (!form_on(F_B64_N_NUL)) break;
 		vf::add(W_NLT);
 		malformed_result(decodeBase64(fb.p, n), "b64_explicit_len", W("decodeBase64(char* " + show(s) + fmt(", n=%d)", n)), kase);
 	}
-	Tight tt(s);
-	malformed_result(decodeBase64((const char*)tt.p, L), "b64_explicit_len", W("decodeBase64(unterminated buffer " + show(s) + fmt(", n=%d)", L)), kase);
+	if (form_on(F_B64_N_TIGHT)) {
+		Tight tt(s);
+		malformed_result(decodeBase64((const char*)tt.p, L), "b64_explicit_len", W("decodeBase64(unterminated buffer " + show(s) + fmt(", n=%d)", L)), kase);
+	}
 }
 
 // ------------------------------------------------------------------------------------------------
@@ -367,17 +457,18 @@ static void check_b64_text(const std::string& s) {
 // ------------------------------------------------------------------------------------------------
 static void check_hex_text(const std::string& s) {
 	std::string kase = "hexbad:" + vf::hex(s);
-	vf::cur(kase); vf::cur_sig("hex_crash");
-	vf::asan_clear();
-	vf::add(C_DISTINCT); vf::add(C_EVAL);
+	setcur(kase, "crash");
+	vf::add(C_DISTINCT);
 	bool lower = true, anyhex = true;
 	for (size_t i = 0; i < s.size(); i++) { if (!((s[i] >= '0' && s[i] <= '9') || (s[i] >= 'a' && s[i] <= 'f'))) lower = false; if (hexval(s[i]) < 0) anyhex = false; }
 	if (s.size() % 2) { vf::add(W_HEX_ODD); if (s.size() >= 7) vf::add(W_HEX_ODD7); } else vf::add(W_HEX_EVEN);
 	if (!anyhex) vf::add(W_HEX_NONHEX);
+	if (!form_on(s.size() % 2 ? F_HEX_ODD : F_HEX_EVEN)) return;
 	String t = vfx::A(s);
 	vfx::Flush fl(t);
 	ByteArray r = decodeHex(t);
-	if (r.length() < 0) { bad("hex_neg_length", "decodeHex(" + show(s) + ") returned length " + fmt("%d", r.length()), kase); vf::asan_clear(); return; }
+	vf::add(C_EVAL);
+	if (r.length() < 0) { bad("hex_neg_length", "decodeHex(" + show(s) + ") returned length " + fmt("%d", r.length()), kase); asan_clear(); return; }
 	if (asan("hex_oob", W("decodeHex(" + show(s) + ")" + (s.size() % 2 ? fmt(" (odd length %d)", (int)s.size()) : std::string())), kase)) return;
 	Bytes d;
 	if (lower && ref_hexdec(s, d)) { // s is the lowercase-hex text of d
@@ -391,9 +482,10 @@ static void check_hex_text(const std::string& s) {
 // ------------------------------------------------------------------------------------------------
 static void check_url(const Bytes& s, int mode) {
 	std::string kase = fmt("url:%d:", mode) + vf::hex(s);
-	vf::cur(kase); vf::cur_sig("url_crash");
-	vf::asan_clear();
-	vf::add(C_DISTINCT); vf::add(C_EVAL);
+	setcur(kase, "crash");
+	vf::add(C_DISTINCT);
+	if (!form_on(F_URL)) return;
+	vf::add(C_EVAL);
 	String in = vfx::A(s);
 	vfx::Flush fl(in);
 	String e = Url::encode(in, mode != 0);
@@ -409,9 +501,10 @@ static void check_url(const Bytes& s, int mode) {
 }
 static void check_urldec(const std::string& s) {
 	std::string kase = "urldec:" + vf::hex(s);
-	vf::cur(kase); vf::cur_sig("url_crash");
-	vf::asan_clear();
-	vf::add(C_DISTINCT); vf::add(C_EVAL);
+	setcur(kase, "crash");
+	vf::add(C_DISTINCT);
+	if (!form_on(F_URL)) return;
+	vf::add(C_EVAL);
 	String in = vfx::A(s);
 	vfx::Flush fl(in);
 	String d = Url::decode(in);
@@ -422,9 +515,10 @@ typedef std::vector<std::pair<Bytes, Bytes> > Entries;
 static void check_query(const Entries& en) {
 	std::string kase = "query";
 	for (size_t i = 0; i < en.size(); i++) kase += ":" + vf::hex(en[i].first) + ":" + vf::hex(en[i].second);
-	vf::cur(kase); vf::cur_sig("url_crash");
-	vf::asan_clear();
-	vf::add(C_DISTINCT); vf::add(C_EVAL);
+	setcur(kase, "crash");
+	vf::add(C_DISTINCT);
+	if (!form_on(F_QUERY)) return;
+	vf::add(C_EVAL);
 	std::map<Bytes, Bytes> model;
 	Dic<> d;
 	auto ddf = [&]() { std::string x = "{"; for (size_t i = 0; i < en.size(); i++) x += (i ? ", " : "") + show(en[i].first) + ": " + show(en[i].second); return x + "}"; };
@@ -453,14 +547,14 @@ static void check_query(const Entries& en) {
 // (S) SHA-1
 // ------------------------------------------------------------------------------------------------
 static void check_sha(const Bytes& m, const std::string& kase, bool forms) {
-	vf::cur(kase); vf::cur_sig("sha_crash");
-	vf::asan_clear();
+	setcur(kase, "crash");
 	vf::add(C_DISTINCT);
 	size_t n = m.size(), r = n % 64;
 	vf::add(r <= 55 ? W_SHA_1BLK : W_SHA_2BLK);
 	if (r == 55 || r == 56 || r == 63 || r == 0) vf::add(W_SHA_EDGE);
 	if (n >= 128) vf::add(W_SHA_DIRECT);
 	if (n >= (1u << 20)) vf::add(W_SHA_LARGE);
+	if (!form_on(F_SHA)) return;
 	Bytes exp = ref_sha1(m);
 	{
 		Tight t(m);
@@ -469,14 +563,14 @@ static void check_sha(const Bytes& m, const std::string& kase, bool forms) {
 		if (!asan("sha_oob", W(fmt("SHA1::hash(ptr, %d)", (int)n)), kase) && memcmp(&h[0], exp.data(), 20) != 0)
 			bad("sha1", fmt("SHA1::hash(%d-byte message ", (int)n) + vf::hex(m.substr(0, 16)) + (n > 16 ? "..." : "") + ") = " + vf::hex(&h[0], 20) + ", FIPS 180-4 gives " + vf::hex(exp), kase);
 	}
-	if (!forms) return;
+	if (!forms || !form_on(F_SHA)) return;
 	{
 		ByteArray a((const byte*)m.data(), (int)n);
 		SHA1::Hash h = SHA1::hash(a);
 		vf::add(C_EVAL);
 		if (!asan("sha_oob", W("SHA1::hash(ByteArray)"), kase) && memcmp(&h[0], exp.data(), 20) != 0) bad("sha1", fmt("SHA1::hash(ByteArray of %d bytes) = ", (int)n) + vf::hex(&h[0], 20) + ", FIPS 180-4 gives " + vf::hex(exp), kase);
 	}
-	if (memchr(m.data(), 0, n) == 0) {
+	if (memchr(m.data(), 0, n) == 0 && form_on(F_SHA)) {
 		String s = vfx::A(m);
 		vfx::Flush fl(s);
 		SHA1::Hash h = SHA1::hash(s);
@@ -501,36 +595,22 @@ static std::string nth(const char* alpha, int na, int len, uint64_t idx) { // mo
 	for (int i = len - 1; i >= 0; i--) { s[i] = alpha[idx % na]; idx /= na; }
 	return s;
 }
-// all strings of exactly `len` over alpha, sharded by the first min(len,pre) symbols
-template <class F>
-static void all_strings(const char* alpha, int len, int pre, F f) {
-	int na = (int)strlen(alpha);
-	int p = len < pre ? len : pre;
-	uint64_t items = ipow(na, p), rest = ipow(na, len - p);
-	vf::parallel(items, [&](uint64_t it) {
-		std::string head = nth(alpha, na, p, it);
-		for (uint64_t r = 0; r < rest; r++) f(head + nth(alpha, na, len - p, r));
-	});
+// the idx-th string in shortlex order over alpha (idx 0 = empty string)
+static std::string shortlex(const char* alpha, uint64_t idx) {
+	int na = (int)strlen(alpha), len = 0;
+	uint64_t n = 1;
+	while (idx >= n) { idx -= n; n *= na; len++; }
+	return nth(alpha, na, len, idx);
 }
-template <class F>
-static void all_strings_upto(const char* alpha, int maxlen, F f) { // one parallel call, items = (len, first symbols)
-	int na = (int)strlen(alpha);
-	std::vector<std::pair<int, uint64_t> > items;
-	for (int len = 0; len <= maxlen; len++) { uint64_t n = ipow(na, len < 2 ? len : 2); for (uint64_t i = 0; i < n; i++) items.push_back(std::make_pair(len, i)); }
-	vf::parallel(items.size(), [&](uint64_t it) {
-		int len = items[it].first, p = len < 2 ? len : 2;
-		std::string head = nth(alpha, na, p, items[it].second);
-		uint64_t rest = ipow(na, len - p);
-		for (uint64_t r = 0; r < rest; r++) f(head + nth(alpha, na, len - p, r));
-	});
-}
+static uint64_t count_upto(const char* alpha, int maxlen) { uint64_t t = 0; for (int l = 0; l <= maxlen; l++) t += ipow(strlen(alpha), l); return t; }
 static std::vector<Bytes> strings_upto(const char* alpha, int maxlen) {
 	std::vector<Bytes> v;
-	int na = (int)strlen(alpha);
-	for (int len = 0; len <= maxlen; len++) { uint64_t n = ipow(na, len); for (uint64_t i = 0; i < n; i++) v.push_back(nth(alpha, na, len, i)); }
+	uint64_t n = count_upto(alpha, maxlen);
+	for (uint64_t i = 0; i < n; i++) v.push_back(shortlex(alpha, i));
 	return v;
 }
 static std::vector<size_t> big_lengths(int maxlog) { std::vector<size_t> v; for (int k = 11; k <= maxlog; k++) { v.push_back(((size_t)1 << k) - 1); v.push_back((size_t)1 << k); v.push_back(((size_t)1 << k) + 1); } return v; }
+static Bytes bytes2(int a, int b) { Bytes d(2, (char)a); d[1] = (char)b; return d; }
 
 // ------------------------------------------------------------------------------------------------
 // references vs python3 stdlib
@@ -552,7 +632,7 @@ static void crosscheck_python() {
 	std::vector<Bytes> arrays;
 	arrays.push_back(Bytes());
 	for (int a = 0; a < 256; a++) arrays.push_back(Bytes(1, (char)a));
-	for (int a = 0; a < 256; a++) for (int b = 0; b < 256; b++) { Bytes d(2, (char)a); d[1] = (char)b; arrays.push_back(d); }
+	for (int a = 0; a < 256; a++) for (int b = 0; b < 256; b++) arrays.push_back(bytes2(a, b));
 	for (int a = 0; a < 64; a++) for (int b = 0; b < 64; b++) { Bytes d(3, (char)(a * 4 + 1)); d[1] = (char)(b * 4 + 2); d[2] = (char)(a * 64 + b); arrays.push_back(d); }
 	for (size_t len = 0; len <= 1024; len++) for (int k = 0; k < NKIND; k++) arrays.push_back(content(len, k));
 	for (size_t len = 65534; len <= 65538; len++) arrays.push_back(content(len, 3));
@@ -642,6 +722,12 @@ static void lap(const char* name) { double t = vf::now_s(); laps += fmt("%s%s %.
 int main(int argc, char** argv) {
 	vf::init(argc, argv, "C15", "c15_codecs");
 	lap_t = vf::now_s();
+	SH = (IsoShared*)mmap(0, sizeof(IsoShared), PROT_READ | PROT_WRITE, MAP_SHARED | MAP_ANONYMOUS, -1, 0);
+	if (SH == MAP_FAILED) { perror("c15: mmap"); return 2; }
+	memset(SH, 0, sizeof(IsoShared));
+#if defined(__SANITIZE_ADDRESS__)
+	__asan_set_error_report_callback(asan_cb);
+#endif
 	C_EVAL = vf::counter("evaluations"); C_DISTINCT = vf::counter("distinct_nontrivial");
 	W_TAIL[0] = vf::counter("w.b64_len_mod3_0_no_padding"); W_TAIL[1] = vf::counter("w.b64_len_mod3_1_two_pads"); W_TAIL[2] = vf::counter("w.b64_len_mod3_2_one_pad");
 	W_WS = vf::counter("w.b64_valid_text_with_whitespace"); W_WS_PAD = vf::counter("w.b64_whitespace_next_to_or_after_padding");
@@ -653,7 +739,8 @@ int main(int argc, char** argv) {
 	W_Q_EMPTYV = vf::counter("w.query_empty_value"); W_Q_TWO = vf::counter("w.query_two_entries"); W_Q_SPECIAL = vf::counter("w.query_key_or_value_with_separator_plus_space_percent");
 	W_SHA_1BLK = vf::counter("w.sha_padding_fits_last_block"); W_SHA_2BLK = vf::counter("w.sha_padding_needs_extra_block"); W_SHA_EDGE = vf::counter("w.sha_len_mod64_in_55_56_63_0"); W_SHA_DIRECT = vf::counter("w.sha_blocks_hashed_in_place"); W_SHA_LARGE = vf::counter("w.sha_message_1MiB_or_more");
 	for (int k = 0; k < NSIGS; k++) C_SIG[k] = vf::counter((std::string("failures.") + SIGS[k]).c_str());
-	N_URL_STD = vf::counter("url_encode_equals_rfc3986_reference"); N_B64_LARGE = vf::counter("arrays_longer_than_1024");
+	C_RESTARTS = vf::counter("subprocesses_replaced_after_memory_corruption_or_death"); C_SKIPPED = vf::counter("calls_skipped_after_form_limit");
+	N_URL_STD = vf::counter("url_encode_equals_rfc3986_reference"); N_B64_LARGE = vf::counter("arrays_longer_than_4096");
 	if (vf::opt.replay) { vf::parallel(1, [&](uint64_t) { run_case(vf::opt.kase); }); return vf::finish(); }
 	bool T = vf::opt.thorough();
 
@@ -662,34 +749,31 @@ int main(int argc, char** argv) {
 
 	// ---- (A) byte arrays ------------------------------------------------------------------------
 	// every array of length <= 2, all calling forms
-	vf::parallel(257, [&](uint64_t it) {
-		if (it == 256) { check_array(Bytes(), "bytes:", true); for (int a = 0; a < 256; a++) { Bytes d(1, (char)a); check_array(d, "bytes:" + vf::hex(d), true); } return; }
-		for (int b = 0; b < 256; b++) { Bytes d(2, (char)it); d[1] = (char)b; check_array(d, "bytes:" + vf::hex(d), true); }
+	run_cases(1 + 256 + 65536, [&](uint64_t i) {
+		Bytes d = i == 0 ? Bytes() : i <= 256 ? Bytes(1, (char)(i - 1)) : bytes2((int)((i - 257) >> 8), (int)((i - 257) & 255));
+		check_array(d, "bytes:" + vf::hex(d), true);
 	});
 	lap("arrays<=2");
-	// every array of length 3 (= every group of four Base64 symbols); quick: every fourth value of the third byte is replaced by a stride that still
-	// covers all 64 values of each symbol position
-	vf::parallel(65536, [&](uint64_t it) {
+	// every array of length 3 (= every group of four Base64 symbols). quick: the 2^22 arrays whose last byte has the same low two bits
+	// as the middle byte (bits 2..7 take all values, so every symbol position still takes all 64 values)
+	run_cases(T ? 1u << 24 : 1u << 22, [&](uint64_t i) {
 		Bytes d(3, 0);
-		d[0] = (char)(it >> 8); d[1] = (char)it;
-		for (int c = 0; c < 256; c++) {
-			if (!T && ((c ^ (int)it) & 3)) continue; // quick: 2^22 of the 2^24 arrays; the low two bits of byte 2 follow byte 1, bits 2..7 take all values
-			d[2] = (char)c;
-			check_array(d, "bytes:" + vf::hex(d), false);
-		}
-	}, 64);
+		if (T) { d[0] = (char)(i >> 16); d[1] = (char)(i >> 8); d[2] = (char)i; }
+		else { d[0] = (char)(i >> 14); d[1] = (char)(i >> 6); d[2] = (char)(((i & 63) << 2) | ((i >> 6) & 3)); }
+		check_array(d, "bytes:" + vf::hex(d), false);
+	});
 	lap("arrays3");
 	// every length 0..Lmax with four contents, all forms and line-wrapped layouts
 	int Lmax = T ? 4096 : 1024;
-	vf::parallel((uint64_t)(Lmax + 1) * NKIND, [&](uint64_t it) { size_t len = it / NKIND; int k = (int)(it % NKIND); check_array(content(len, k), fmt("gen:%lu:%d", (unsigned long)len, k), true); }, 8);
+	run_cases((uint64_t)(Lmax + 1) * NKIND, [&](uint64_t it) { size_t len = it / NKIND; int k = (int)(it % NKIND); check_array(content(len, k), fmt("gen:%lu:%d", (unsigned long)len, k), true); });
 	lap("lengths");
 	// lengths 2^k-1, 2^k, 2^k+1 up to 4 MiB
 	{
 		std::vector<size_t> bl = big_lengths(22);
 		int nk = T ? 3 : 1;
-		vf::parallel(bl.size() * nk, [&](uint64_t it) {
+		run_cases(bl.size() * nk, [&](uint64_t it) {
 			size_t len = bl[bl.size() - 1 - it / nk]; int k = 3 - (int)(it % nk); // largest first (load balance)
-			vf::add(N_B64_LARGE);
+			if (len > 4096) vf::add(N_B64_LARGE);
 			check_array(content(len, k), fmt("gen:%lu:%d", (unsigned long)len, k), true);
 		});
 	}
@@ -698,85 +782,99 @@ int main(int argc, char** argv) {
 
 	// ---- (W) whitespace at every position of short texts -----------------------------------------
 	{
+		std::vector<std::string> texts;
 		std::vector<Bytes> ws;
 		ws.push_back(Bytes());
 		for (int a = 0; a < 256; a += T ? 1 : 5) ws.push_back(Bytes(1, (char)a));
 		for (size_t len = 2; len <= 6; len++) for (int k = 0; k < NKIND; k++) ws.push_back(content(len, k));
-		int ins = T ? 3 : 2;
-		vf::parallel(ws.size(), [&](uint64_t it) { ws_insertions(ref_b64enc(ws[it]), ins, 0, "", 0); });
+		for (size_t i = 0; i < ws.size(); i++) ws_insertions(texts, ref_b64enc(ws[i]), T ? 3 : 2, 0, "", 0);
+		run_cases(texts.size(), [&](uint64_t i) { check_ws_text(texts[i], "b64ws:" + vf::hex(texts[i])); });
 	}
-
 	lap("whitespace");
-	// ---- (M) arbitrary Base64 text -----------------------------------------------------------------
-	all_strings_upto(A64, 5, check_b64_text); // shortest first, so the minimal failing texts are the ones written out
+
+	// ---- (M) arbitrary Base64 text (shortest first, so the minimal failing texts are the ones written out) ----
+	run_cases(count_upto(A64, 5), [&](uint64_t i) { check_b64_text(shortlex(A64, i)); });
 	for (int len = 6; len <= (T ? 9 : 8); len++) {
 		if (vf::deadline_passed()) { vf::cap_hit(fmt("deadline before Base64 texts of length %d", len)); break; }
-		all_strings(A64, len, 3, check_b64_text);
+		run_cases(ipow(8, len), [&](uint64_t i) { check_b64_text(nth(A64, 8, len, i)); });
 	}
 	lap("b64texts");
 	// ---- (H) arbitrary hex text --------------------------------------------------------------------
-	all_strings_upto(AHEX, 5, check_hex_text);
+	run_cases(count_upto(AHEX, 5), [&](uint64_t i) { check_hex_text(shortlex(AHEX, i)); });
 	for (int len = 6; len <= (T ? 10 : 8); len++) {
 		if (vf::deadline_passed()) { vf::cap_hit(fmt("deadline before hex texts of length %d", len)); break; }
-		all_strings(AHEX, len, 2, check_hex_text);
+		run_cases(ipow(6, len), [&](uint64_t i) { check_hex_text(nth(AHEX, 6, len, i)); });
 	}
-	vf::parallel(T ? 1200 : 300, [&](uint64_t len) { // longer texts of every length, odd and even: digits only / one non-digit at the end / at the start
+	run_cases((T ? 1200 : 300) * 4, [&](uint64_t it) { // longer texts of every length, odd and even: digits only / a non-digit at the end / start / an upper-case digit
+		uint64_t len = it / 4; int v = (int)(it % 4);
+		if (len == 0 && v) return;
 		std::string s;
 		for (uint64_t i = 0; i < len; i++) s += "0123456789abcdef"[(i * 5 + len) & 15];
+		if (v == 1) s[len - 1] = 'g'; else if (v == 2) s[0] = ' '; else if (v == 3) s[len / 2] = 'F';
 		check_hex_text(s);
-		if (len) { std::string t = s; t[len - 1] = 'g'; check_hex_text(t); t = s; t[0] = ' '; check_hex_text(t); t = s; t[len / 2] = 'F'; check_hex_text(t); }
-	}, 4);
-
-	lap("hextexts");
-	// ---- (U) percent-coding ------------------------------------------------------------------------
-	for (int len = 0; len <= (T ? 6 : 5); len++) all_strings(AURL, len, 2, [](const std::string& s) { check_url(s, 0); check_url(s, 1); });
-	vf::parallel(256, [&](uint64_t a) { // every single byte and every pair of bytes (NUL excluded: asl::String is a C string)
-		if (a == 0) { for (int b = 1; b < 256; b++) { Bytes s(1, (char)b); check_url(s, 0); check_url(s, 1); } return; }
-		for (int b = 1; b < 256; b++) { Bytes s(2, (char)a); s[1] = (char)b; check_url(s, 0); check_url(s, 1); }
 	});
-	for (int len = 0; len <= (T ? 8 : 6); len++) all_strings(AUDEC, len, 2, check_urldec);
+	lap("hextexts");
+
+	// ---- (U) percent-coding ------------------------------------------------------------------------
+	run_cases(count_upto(AURL, T ? 6 : 5) * 2, [&](uint64_t i) { check_url(shortlex(AURL, i / 2), (int)(i % 2)); });
+	run_cases((255 + 255 * 255) * 2, [&](uint64_t i) { // every single byte and every pair of bytes (NUL excluded: asl::String is a C string)
+		uint64_t j = i / 2;
+		Bytes s = j < 255 ? Bytes(1, (char)(j + 1)) : bytes2((int)((j - 255) / 255) + 1, (int)((j - 255) % 255) + 1);
+		check_url(s, (int)(i % 2));
+	});
+	run_cases(count_upto(AUDEC, T ? 8 : 6), [&](uint64_t i) { check_urldec(shortlex(AUDEC, i)); });
 	lap("url");
 	// ---- (Q) query dictionaries ----------------------------------------------------------------------
 	{
 		std::vector<Bytes> keys = strings_upto(AURL, 3), vals = strings_upto(AURL, T ? 3 : 2);
 		keys.erase(keys.begin()); // non-empty keys
-		vf::parallel(keys.size() + 1, [&](uint64_t i) { if (i == keys.size()) { check_query(Entries()); return; } for (size_t j = 0; j < vals.size(); j++) { Entries e; e.push_back(std::make_pair(keys[i], vals[j])); check_query(e); } }, 4);
+		run_cases(keys.size() * vals.size() + 1, [&](uint64_t i) {
+			Entries e;
+			if (i < keys.size() * vals.size()) e.push_back(std::make_pair(keys[i / vals.size()], vals[i % vals.size()])); // else: the empty dictionary
+			check_query(e);
+		});
 		std::vector<Bytes> k2 = strings_upto(AURL, 2), v2 = strings_upto(AURL, 1);
 		k2.erase(k2.begin());
 		if (T) { v2.push_back("a="); v2.push_back("&a"); v2.push_back("%2"); v2.push_back("+ "); v2.push_back("\xc3\xa9"); }
-		vf::parallel(k2.size(), [&](uint64_t i) {
-			for (size_t j = i + 1; j < k2.size(); j++) for (size_t a = 0; a < v2.size(); a++) for (size_t b = 0; b < v2.size(); b++) {
-				Entries e; e.push_back(std::make_pair(k2[i], v2[a])); e.push_back(std::make_pair(k2[j], v2[b]));
-				check_query(e);
-				if (a == 0 && b == 1) { Entries r; r.push_back(e[1]); r.push_back(e[0]); check_query(r); } // insertion order must not matter
-			}
+		std::vector<std::pair<int, int> > pairs;
+		for (size_t i = 0; i < k2.size(); i++) for (size_t j = i + 1; j < k2.size(); j++) pairs.push_back(std::make_pair((int)i, (int)j));
+		uint64_t nv = v2.size();
+		run_cases(pairs.size() * nv * nv, [&](uint64_t i) {
+			uint64_t p = i / (nv * nv), a = i / nv % nv, b = i % nv;
+			Entries e; e.push_back(std::make_pair(k2[pairs[p].first], v2[a])); e.push_back(std::make_pair(k2[pairs[p].second], v2[b]));
+			check_query(e);
+			if (a == 0 && b == 1) { Entries r; r.push_back(e[1]); r.push_back(e[0]); check_query(r); } // insertion order must not matter
 		});
 	}
 	lap("query");
 	if (vf::deadline_passed()) vf::cap_hit("deadline after the URL pass");
 
 	// ---- (S) SHA-1 -----------------------------------------------------------------------------------
-	vf::parallel(257, [&](uint64_t it) { // every message of length <= 2
-		if (it == 256) { check_sha(Bytes(), "sha:", true); for (int a = 0; a < 256; a++) { Bytes d(1, (char)a); check_sha(d, "sha:" + vf::hex(d), true); } return; }
-		for (int b = 0; b < 256; b++) { Bytes d(2, (char)it); d[1] = (char)b; check_sha(d, "sha:" + vf::hex(d), true); }
+	run_cases(1 + 256 + 65536, [&](uint64_t i) { // every message of length <= 2
+		Bytes d = i == 0 ? Bytes() : i <= 256 ? Bytes(1, (char)(i - 1)) : bytes2((int)((i - 257) >> 8), (int)((i - 257) & 255));
+		check_sha(d, "sha:" + vf::hex(d), true);
 	});
 	int Smax = T ? 8192 : 1024; // every length (all padding cases many times over), five contents
-	vf::parallel((uint64_t)(Smax + 1) * 5, [&](uint64_t it) { size_t len = it / 5; int k = (int)(it % 5); check_sha(content(len, k), fmt("shagen:%lu:%d", (unsigned long)len, k), true); }, 8);
+	run_cases((uint64_t)(Smax + 1) * 5, [&](uint64_t it) { size_t len = it / 5; int k = (int)(it % 5); check_sha(content(len, k), fmt("shagen:%lu:%d", (unsigned long)len, k), true); });
 	{
 		std::vector<size_t> sl = big_lengths(23);
 		for (size_t l = 65530; l <= 65600; l++) sl.push_back(l);
 		for (int k = 20; k <= 23; k++) for (int d = 54; d <= 65; d++) sl.push_back(((size_t)1 << k) - 64 + d); // padding edges on large messages
 		std::sort(sl.begin(), sl.end());
 		int nk = T ? 3 : 1;
-		vf::parallel(sl.size() * nk, [&](uint64_t it) {
+		run_cases(sl.size() * nk, [&](uint64_t it) {
 			size_t len = sl[sl.size() - 1 - it / nk]; int k = it % nk == 0 ? 3 : it % nk == 1 ? 4 : 2;
 			check_sha(content(len, k), fmt("shagen:%lu:%d", (unsigned long)len, k), len < (1u << 21));
 		});
 	}
-
 	lap("sha1");
+
+	for (int f = 0; f < NFORMS; f++) {
+		if (SH->form_poison[f] >= FORM_LIMIT) vf::cap_hit(fmt("%s: no longer exercised after %d memory-corrupting failures", FORM_NAME[f], (int)FORM_LIMIT));
+		if (SH->form_poison[f]) vf::setinfo(std::string("memory_corrupting_failures:") + FORM_NAME[f], fmt("%u", SH->form_poison[f]));
+	}
 	vf::sample("bytes:f0ff -> encodeBase64 == \"8P8=\" (RFC 4648), encodeHex == \"f0ff\", decodeBase64(String / char* / char*,n / unterminated buffer,n) and decodeHex give back f0ff");
-	vf::sample("b64ws: \"8 P\\n8\\t=\" and every other placement of <= 2 (thorough 3) of {space,LF,CR,TAB} in the texts of all arrays <= 6 bytes; CRLF/76, LF/64 and space/1 layouts for every length");
+	vf::sample("b64ws: \"8 P\\n8\\t=\" and every other placement of <= 2 (thorough 3) of {space,LF,CR,TAB} in the texts of arrays <= 6 bytes; CRLF/76, LF/64 and space/1 layouts for every length");
 	vf::sample("b64bad: every string <= 8 over \"A/+= \\n!z\" e.g. \"=====\", \"A=A=\", \"!z\\n=\" through decodeBase64(String), (char*), (char*, every n < strlen), (unterminated, n)");
 	vf::sample("hexbad: every string <= 8 over \"09aFg \" e.g. \"0a9\" (odd), \"0g\", \"a a\"; every length 0..299 of digit strings");
 	vf::sample("url: Url::decode(Url::encode(s, mode)) for every s <= 5 over {a,space,%,+,&,=,/,0xC3,0xA9,0x01,~}, every 1- and 2-byte string; urldec: every string <= 6 over \"%a0Fg+\\xc3\"");
